@@ -2481,6 +2481,12 @@ impl<'a> Model<'a> {
         height: i32,
         value: &str,
     ) -> Result<(), String> {
+        // The whole array must fit in the sheet: check before touching any cell
+        if row.saturating_add(height).saturating_sub(1) > LAST_ROW
+            || column.saturating_add(width).saturating_sub(1) > LAST_COLUMN
+        {
+            return Err("The array formula does not fit in the sheet".to_string());
+        }
         self.prepare_cell_for_user_input(sheet, row, column)?;
         // If value starts with "'" then we force the style to be quote_prefix
         let style_index = self.get_cell_style_index(sheet, row, column)?;
